@@ -29,7 +29,11 @@ class ModelFieldsPercentMatch(ModelCmp):
         self.percent_fields = percent_fields
 
     def cmp(self, fields_a: set, fields_b: set) -> bool:
-        return len(fields_a & fields_b) / len(fields_a | fields_b) >= self.percent_fields
+        fields_all = fields_a | fields_b
+        if not fields_all:
+            # Two models without fields are the same
+            return True
+        return len(fields_a & fields_b) / len(fields_all) >= self.percent_fields
 
 
 class ModelFieldsNumberMatch(ModelCmp):
